@@ -58,6 +58,14 @@ type xUnit struct {
 	// StrMaps: a map with string keys is the list of its insertions in order (m[k] = v appends (k, v); a later binding of
 	// a key overrides an earlier one for any reader of the list); lookups, len and iteration stay outside the subset
 	StrMaps bool
+	// LoopBody: the statement slice is part of the body of a `for { }` loop that is not translated itself: the slice
+	// falls through (Next outs), leaves the loop (break: Return (inl (inl outs))), starts the next round (continue:
+	// Return (inl (inr outs))) or returns from the function (Return (inr results))
+	LoopBody bool
+	// NilIsEmpty: slice variables for which the unit claims "nil exactly when empty" (an invariant of the surrounding code,
+	// stated in the unit's documentation): v == nil / v != nil is len(v) == 0 / != 0. Any other comparison of a slice with
+	// nil is rejected (the subset does not tell nil from empty)
+	NilIsEmpty []string
 	// Deep: the statement slice From..To is looked for in nested statement lists as well (it must be unique)
 	Deep bool
 	// Methods: pure methods without arguments of values of the subset (e.String()) that the code calls: each becomes a
@@ -851,6 +859,29 @@ func (x *xl) binary(e *ast.BinaryExpr, g *xGuards) string {
 	return x.arith(e, a, b, g)
 }
 
+// nilIsEmpty: e compares a slice variable listed in the unit's NilIsEmpty with nil
+func (x *xl) nilIsEmpty(e *ast.BinaryExpr) bool {
+	v := e.X
+	if x.info.Types[e.X].IsNil() {
+		v = e.Y
+	} else if !x.info.Types[e.Y].IsNil() {
+		return false
+	}
+	id, ok := v.(*ast.Ident)
+	if !ok {
+		return false
+	}
+	if _, isSlice := x.typeOf(id).Underlying().(*types.Slice); !isSlice {
+		return false
+	}
+	for _, n := range x.unit.NilIsEmpty {
+		if n == id.Name {
+			return true
+		}
+	}
+	return false
+}
+
 // compare: a op b for operands of type t
 func (x *xl) compare(e *ast.BinaryExpr, t types.Type, a, b string) string {
 	var r string
@@ -889,6 +920,13 @@ func (x *xl) compare(e *ast.BinaryExpr, t types.Type, a, b string) string {
 			x.fail(e, "errors can only be compared with nil")
 		}
 		r = "(Bool.eqb " + a + " " + b + ")"
+	case (e.Op == token.EQL || e.Op == token.NEQ) && x.nilIsEmpty(e):
+		v := e.X
+		if x.info.Types[e.X].IsNil() {
+			v = e.Y
+		}
+		var g0 xGuards
+		r = "((go_len " + x.expr(v, &g0) + ") =? 0)"
 	case !xIsBytes(t) && (e.Op == token.EQL || e.Op == token.NEQ) && (x.info.Types[e.Y].IsNil() || x.info.Types[e.X].IsNil()):
 		x.fail(e, "comparison of a %s with nil is outside the subset", t)
 	default:
